@@ -167,6 +167,15 @@ def step (line : String) : String :=
         | none, _ => "bad-op"
         | _, none => "bad-frame: body is not an encoding of the Spec layout"
       | _, _, _, _ => "bad-args"
+    | ["c17rawt", hr, ks] =>
+      -- Transport path (saslauthenticate RawExchange): the same un-framed answer, model `rawToken`
+      match ofHex hr, ks.toNat? with
+      | some resp, some k =>
+        let (ra, _) := rawToken (resp.take k)
+        let m := if showOutcome ra == "ok" then s!"ok {resp.length - 4}" else "err"
+        let h := if k < resp.length then impl == "err" else impl == s!"ok {resp.length - 4}"
+        s!"model={m} holds={if h then 1 else 0}"
+      | _, _ => "bad-args"
     | ["c17raw", hr, ks, hn] =>
       match ofHex hr, ks.toNat?, ofHex hn with
       | some resp, some k, some nb =>
